@@ -792,6 +792,8 @@ impl NormalizedAddress {
             Lookup(T),
             #[cfg(test)]
             Hardcoded(std::vec::IntoIter<SocketAddr>),
+            #[cfg(pendulum_project_ntpd_rs_verif)]
+            Sim(std::vec::IntoIter<SocketAddr>),
         }
 
         impl<T: Iterator<Item = SocketAddr>> Iterator for Either<T> {
@@ -802,6 +804,8 @@ impl NormalizedAddress {
                     Either::Lookup(lookup) => lookup.next(),
                     #[cfg(test)]
                     Either::Hardcoded(hardcoded) => hardcoded.next(),
+                    #[cfg(pendulum_project_ntpd_rs_verif)]
+                    Either::Sim(sim) => sim.next(),
                 }
             }
         }
@@ -809,6 +813,13 @@ impl NormalizedAddress {
         #[cfg(test)]
         if let Some(hardcoded_dns_resolve) = &self.hardcoded_dns_resolve {
             return Ok(Either::Hardcoded(hardcoded_dns_resolve.lookup_host()));
+        }
+
+        #[cfg(pendulum_project_ntpd_rs_verif)]
+        if let Some(simulated) =
+            crate::daemon::verif::spawn::sim_lookup_host(&self.server_name, self.port).await
+        {
+            return simulated.map(|addresses| Either::Sim(addresses.into_iter()));
         }
 
         tokio::net::lookup_host((self.server_name.as_str(), self.port))
